@@ -14,7 +14,7 @@ pub fn run(ctx: &Ctx) -> Report {
         Plan { fam: "LAB", styles: plain.clone(), debug: both.clone(), stride: 1 },
         Plan { fam: "S2", styles: plain.clone(), debug: vec![true], stride: 1 },
         Plan { fam: "F1", styles: plain.clone(), debug: both.clone(), stride: 1 },
-        Plan { fam: "F2", styles: plain.clone(), debug: vec![true], stride: ctx.pick(37, 3) },
+        Plan { fam: "F2", styles: plain.clone(), debug: vec![true], stride: ctx.pick(37, 1) },
     ];
     run_plans(ctx, &mut rep, "C02", &plans, &|i| i.parsed && !i.wellformed);
     rep.require(rep.acc.get("accepted") > 1000 && rep.acc.get("rejected") > 1000, "both accepted and rejected programs explored");
